@@ -77,6 +77,11 @@ def fixed_targets():
     # the two witnesses of Theorem C03_snapshot_reduce_refuted (2 x 2 grid, pixel centres 12.5/17.5E, 83.75/81.25N)
     T.append(dict(ll(10, 80, 20, 85, 2, 2, "high_lat"), force={"radius": 50000.0, "points": [(11.0, 83.75)]}))
     T.append(dict(ll(10, 80, 20, 85, 2, 2, "high_lat"), force={"radius": 2500000.0, "points": [(12.5, 58.7)], "only": True}))
+    # one deterministic witness per known cause (a single decisive source; the other sources are on the far side of the globe)
+    T.append(dict(ll(0, 45, 20, 60, 10, 8, "mid_lat"), force={"radius": 100000.0, "points": [(-0.5, 59.0625)], "only": True}))
+    T.append(dict(ll(0, 87, 40, 89.8, 10, 7, "near_pole"), force={"radius": 30000.0, "points": [(-10.0, 89.6)], "only": True}))
+    T.append(dict(ll(20, 50, 10, 60, 8, 8, "flipped"), force={"radius": 50000.0, "pixels": [(3, 3)], "only": True}))
+    T.append(dict(stere(90, 0, (-5e5, 15e5, 5e5, 25e5), 10, 10, "rotated"), force={"radius": 50000.0, "pixels": [(0, 5)], "only": True}))
     T.append(ll(-150, -86, -120, -80, 10, 6, "high_lat"))
     T.append(ll(100, 60, 130, 75, 12, 10, "off_meridian"))
     T.append(ll(-2.5, 40, 2.5, 45, 5, 6, "lon_zero"))                      # a pixel column exactly on lon 0.0
@@ -310,7 +315,8 @@ def gen_cases(ctx, mp_ok):
         slon, slat = make_source_points(r, tgt, radius, n, malformed)
         if force and force.get("only"):
             far = [(-150.0, -40.0), (-140.0, -50.0), (-160.0, -30.0), (100.0, -60.0), (-120.0, -20.0), (-130.0, -45.0)]
-            slon, slat = [p[0] for p in force["points"] + far], [p[1] for p in force["points"] + far]
+            fp = [tuple(p) for p in force.get("points", [])] + [(float(lon[i, j]), float(lat[i, j])) for i, j in force.get("pixels", [])]
+            slon, slat = [p[0] for p in fp + far], [p[1] for p in fp + far]
             n = len(slon)
         elif force:
             for j, (a, b) in enumerate(force["points"]):
